@@ -14,7 +14,7 @@ Definition filter_only_trig (q : rtrig) : Prop :=
   q_depth q = None /\ q_time q = None /\ q_trace_on q = false /\ q_trace_off q = false /\ q_trace q = false
   /\ q_caller q = false /\ q_hide q = false.
 Definition filter_only (c : cfg) : Prop :=
-  (forall f, filter_only_trig (trig_of c f)) /\ caller_filter c = false /\ 1 <= gdepth c.
+  (forall f, filter_only_trig (trig_of c f)) /\ caller_filter c = false /\ 1 <= gdepth c /\ loc_free_all c.
 
 (* every call takes time, lies inside its caller's interval, and none runs exactly the threshold T
    (there record time keeps `>` and replay time drops `<`: C07_threshold_boundary_refuted) *)
@@ -165,7 +165,7 @@ Section Rec.
     = (mk i 1 1 (Fr false true true false f t 0 ri dp :: stk) ri ou, true :: hk).
   Proof.
     intros Htr Hl. assert (Hidx : (1024 <=? N.of_nat (length stk))%N = false) by lia.
-    destruct Hfo as (_ & _ & Hgd).
+    destruct Hfo as (_ & _ & Hgd & _).
     assert (Hg : (Z.to_N (gdepth c) <=? 0)%N = false) by lia.
     mstep. rewrite Hidx. cbn. rewrite Htr. cbn. rewrite Hg. cbn. reflexivity.
   Qed.
@@ -175,7 +175,7 @@ Section Rec.
     = (mk (i + 1) 0 1 (Fr true false false false f t 0 ri dp :: stk) (ri + 1) ou, true :: hk).
   Proof.
     intros Htr Hl Hi. assert (Hidx : (1024 <=? N.of_nat (length stk))%N = false) by lia.
-    destruct Hfo as (_ & _ & Hgd).
+    destruct Hfo as (_ & _ & Hgd & _).
     assert (Hg : (Z.to_N (gdepth c) <=? 0)%N = false) by lia.
     assert (Hi1 : (i + 1 =? 0) = false) by lia.
     mstep. rewrite Hidx. cbn. rewrite Htr. cbn. rewrite Hg. cbn. rewrite Hi1. cbn. rewrite ?andb_false_r. reflexivity.
@@ -215,7 +215,7 @@ Section Rec.
                (ou ++ (if wr then [] else pend stk ++ [mflat_rec false ri t0 f]) ++ [mflat_rec true ri t1 f])
        else mk (if flt then i - 1 else i) 0 dp stk ri ou, hk).
   Proof.
-    intros H01 H1. destruct Hfo as (_ & Hcl & _). unfold two64 in H1. unfold tdelta, two64.
+    intros H01 H1. destruct Hfo as (_ & Hcl & _ & _). unfold two64 in H1. unfold tdelta, two64.
     assert (Hri : (if (0 <? ri + 1)%N then (ri + 1 - 1)%N else 0%N) = ri) by (destruct (0 <? ri + 1)%N eqn:E; lia).
     assert (Ht1 : (t1 =? 0)%N = false) by lia.
     mstep. cbn -[N.modulo N.add N.sub N.ltb MC.flush_anc]. rewrite Hcl. cbn -[N.modulo N.add N.sub N.ltb MC.flush_anc].
@@ -392,7 +392,7 @@ Lemma short_gone c : filter_only c -> forall n, wf_call (threshold c) n ->
   (tdelta (c_t1 n) (c_t0 n) < threshold c)%N ->
   tprune c (threshold c) n = [] /\ forall inF lv, sel c inF lv n = [].
 Proof.
-  intros (Htr & Hcl & _). induction n as [f t0 t1 ks IH] using call_ind'. intros Hwf Hs.
+  intros (Htr & Hcl & _ & _). induction n as [f t0 t1 ks IH] using call_ind'. intros Hwf Hs.
   apply wf_kids in Hwf. destruct Hwf as (H01 & H1 & _ & Hwk & Hin). cbn [c_t0 c_t1] in Hs.
   rewrite (tdelta_sub t0 t1) in Hs by lia.
   assert (K : Forall (fun k => tprune c (threshold c) k = [] /\ forall inF lv, sel c inF lv k = []) ks).
@@ -416,7 +416,7 @@ Lemma long_kept c : filter_only c -> forall f t0 t1 ks, (t0 < t1)%N -> (t1 < two
   (threshold c < tdelta t1 t0)%N ->
   tprune c (threshold c) (Call f t0 t1 ks) = [Call f t0 t1 (flat_map (tprune c (threshold c)) ks)].
 Proof.
-  intros (Htr & Hcl & _) f t0 t1 ks H01 H1 Hl. destruct (Htr f) as (Q1 & Q2 & Q3 & Q4 & Q5 & Q6 & Q7).
+  intros (Htr & Hcl & _ & _) f t0 t1 ks H01 H1 Hl. destruct (Htr f) as (Q1 & Q2 & Q3 & Q4 & Q5 & Q6 & Q7).
   cbn [tprune]. rewrite Q2, Hcl. replace (tdelta t1 t0 <? threshold c)%N with false by lia. reflexivity.
 Qed.
 
@@ -439,7 +439,7 @@ Qed.
 
 Lemma vis_sel c : filter_only c -> plt_free_all c -> forall n, vis_sel_stmt c n.
 Proof.
-  intros Hfo Hp. pose proof Hfo as (Htr & _ & Hgd). induction n as [f t0 t1 ks IH] using call_ind'.
+  intros Hfo Hp. pose proof Hfo as (Htr & _ & Hgd & Hlf). induction n as [f t0 t1 ks IH] using call_ind'.
   intros inF lv d rd rd' b Hb Hwf. pose proof (vis_sel_kids c ks IH) as HK.
   pose proof Hwf as Hwf0. apply wf_kids in Hwf. destruct Hwf as (H01 & H1 & Hne & Hwk & _).
   assert (Hcase : (tdelta t1 t0 < threshold c)%N \/ (threshold c < tdelta t1 t0)%N) by lia.
@@ -448,12 +448,13 @@ Proof.
   rewrite (long_kept c Hfo f t0 t1 ks H01 H1 Hl).
   cbn [height] in Hb. fold (fheight ks) in Hb.
   destruct (Htr f) as (Q1 & Q2 & Q3 & Q4 & Q5 & Q6 & Q7).
-  cbn [flat_map vis sel]. rewrite app_nil_r. rewrite Q1, Q7, (Hp f).
+  cbn [flat_map vis sel]. rewrite app_nil_r. rewrite Q1, Q7, (Hp f), (loc_free_hidden c f Hlf).
   unfold keep. replace (threshold c <? tdelta t1 t0)%N with true by lia. rewrite !orb_true_r.
   destruct (q_filter (trig_of c f)) as [[|]|] eqn:Ef.
   - (* -F *)
     cbn [negb andb orb]. replace (gdepth c <=? 0) with false by lia. cbn [orb].
     cbn [flat_map vis]. rewrite app_nil_r. cbn [plain trig_of notrig q_filter q_depth q_hide fmode_in negb andb orb gdepth].
+    change (loc_hidden plain f) with false. cbn iota.
     replace (b <=? 0) with false by lia. cbn [orb]. unfold hidden_plt at 1. cbn [plain libcall negb andb].
     cbn [map]. rewrite !map_app. cbn [map strip v_exit v_fn v_disp v_time]. f_equal. f_equal.
     replace (gdepth c - 1) with (gdepth c - Z.of_N 1) by lia.
@@ -467,6 +468,7 @@ Proof.
       * apply HK; [lia|assumption].
       * cbn [flat_map vis]. rewrite app_nil_r.
         cbn [plain trig_of notrig q_filter q_depth q_hide fmode_in negb andb orb gdepth].
+    change (loc_hidden plain f) with false. cbn iota.
         replace (b <=? 0) with false by lia. cbn [orb]. unfold hidden_plt at 1. cbn [plain libcall negb andb].
         cbn [map]. rewrite !map_app. cbn [map strip v_exit v_fn v_disp v_time]. f_equal. f_equal.
         replace (gdepth c - Z.of_N lv - 1) with (gdepth c - Z.of_N (lv + 1)) by lia.
@@ -499,7 +501,7 @@ Theorem record_equals_replay_filters c f :
   filter_only c -> plt_free_all c -> no_range c = true -> wf_forest c f -> (fheight f <= 1024)%nat ->
   map strip (rec_then_plain c MC.PG f) = map strip (plain_then_opt c f).
 Proof.
-  intros Hfo Hp Hr Hwf Hh. pose proof Hfo as (Htr & Hcl & Hgd).
+  intros Hfo Hp Hr Hwf Hh. pose proof Hfo as (Htr & Hcl & Hgd & Hlf).
   assert (Hns : no_switch_all c) by (intro k; destruct (Htr k) as (_ & _ & A & B & _); split; assumption).
   unfold rec_then_plain, plain_then_opt.
   rewrite (record_is_sel c f Hfo Hwf Hh).
@@ -527,10 +529,10 @@ Definition f_ex : list call :=
 Example hyps_filter_only : filter_only c_ex /\ wf_forest c_ex f_ex.
 Proof.
   split.
-  - unfold filter_only, c_ex, mkcfg. cbn [trig_of caller_filter threshold gdepth].
-    split; [|repeat split; lia].
+  - unfold filter_only, c_ex, mkcfg, mkcfgL, loc_free_all. cbn [trig_of caller_filter threshold gdepth loc_of lmode_in].
+    split; [|repeat split; try reflexivity; lia].
     apply assoc_filter_only. repeat constructor.
-  - unfold wf_forest, c_ex, f_ex, mkcfg. cbn [threshold]. repeat constructor; cbn; unfold two64; try lia.
+  - unfold wf_forest, c_ex, f_ex, mkcfg, mkcfgL. cbn [threshold]. repeat constructor; cbn; unfold two64; try lia.
     all: vm_compute; congruence.
 Qed.
 Example ex_filter_only_shows :
